@@ -166,7 +166,7 @@ def main():
         max_len = 4096
     else:
         raise ValueError(kind)
-    argv = [sys.argv[0], f"-seed={1 + h64(('fuzz', seed, shard)) % (2**31 - 2)}", f"-runs={runs + 100000}", f"-max_len={max_len}", "-print_final_stats=0", "-verbosity=0", str(cdir)]
+    argv = [sys.argv[0], f"-seed={1 + h64(('fuzz', seed, shard)) % (2**31 - 2)}", f"-runs={runs + 100000}", f"-max_len={max_len}", "-print_final_stats=0", "-verbosity=0", "-rss_limit_mb=8192", "-timeout=3600", str(cdir)]
     atheris.Setup(argv, target)
     atheris.Fuzz()
     finish()
